@@ -233,14 +233,47 @@ async fn run_async(ctx: &mut Ctx, enumerate: bool) {
                 if !enumerate {
                     if let (Some(d), Some(to)) = (&rec.dec, w.node_by_addr(&rec.dst)) {
                         let first_tx = !w.wire[..wi].iter().any(|r| r.from == from && r.bytes == rec.bytes);
-                        if matches!(d.kind, PacketKind::Handshake { .. }) && first_tx && ctx.tape.choose(4) == 0 {
-                            let tmo = w.nodes[to].cfg.request_timeout_ms;
+                        let is_hs = matches!(d.kind, PacketKind::Handshake { .. });
+                        let is_wru = matches!(d.kind, PacketKind::WhoAreYou { .. });
+                        let tmo = w.nodes[to].cfg.request_timeout_ms;
+                        let dice = if first_tx && (is_hs || is_wru) { ctx.tape.choose(12) } else { 99 };
+                        if is_hs && dice < 3 {
                             let delay = tmo - 300 + ctx.tape.choose(1500) as u64;
                             ctx.fault("handshake_held_back");
                             ctx.ev(format!("t={} n{from}->n{to} HANDSHAKE held back for {delay}ms", now_ms()));
                             w.schedule(delay, Ev::Deliver { to, src: rec.src, bytes: rec.bytes.clone(), origin: Origin::Mutated { wire: wi, how: "held-back" } });
                             for _ in 0..ctx.tape.choose(4) {
                                 w.schedule(1 + ctx.tape.choose(delay as u32 - 1) as u64, Ev::Custom(X::SessionLoss { at: to, claimed_peer: from }));
+                            }
+                            held = true;
+                        } else if dice == 3 || dice == 4 {
+                            // the datagram reaches its destination from the sender's IP but another UDP port
+                            // (another process on that host, a NAT that re-maps mid-exchange); the genuine copy
+                            // follows later or never
+                            let mut src = rec.src;
+                            src.set_port(rec.src.port().wrapping_add(7));
+                            ctx.fault("same_ip_other_port");
+                            ctx.ev(format!("t={} n{from}->n{to} {} arrives from {src} instead", now_ms(), if is_hs { "HANDSHAKE" } else { "WHOAREYOU" }));
+                            w.schedule(1, Ev::Deliver { to, src, bytes: rec.bytes.clone(), origin: Origin::Mutated { wire: wi, how: "same-ip-other-port" } });
+                            if ctx.tape.choose(2) == 0 {
+                                w.schedule(2 + ctx.tape.choose(400) as u64, Ev::Deliver { to, src: rec.src, bytes: rec.bytes.clone(), origin: Origin::Genuine { wire: wi, from } });
+                            }
+                            held = true;
+                        } else if is_hs && dice == 5 {
+                            // the handshake's message part is damaged in flight (the id signature does not cover it):
+                            // the damaged copy arrives first and then again and again; the intact one may follow
+                            let mut bytes = rec.bytes.clone();
+                            let l = bytes.len();
+                            bytes[l - 1 - ctx.tape.choose(8) as usize] ^= 1 << ctx.tape.choose(8);
+                            ctx.fault("handshake_message_damaged_and_replayed");
+                            ctx.ev(format!("t={} n{from}->n{to} HANDSHAKE damaged in its message part, delivered repeatedly", now_ms()));
+                            let mut at = 1u64;
+                            for _ in 0..(2 + ctx.tape.choose(3)) {
+                                w.schedule(at, Ev::Deliver { to, src: rec.src, bytes: bytes.clone(), origin: Origin::Mutated { wire: wi, how: "damaged-message" } });
+                                at += 1 + ctx.tape.choose(tmo as u32) as u64;
+                            }
+                            if ctx.tape.choose(2) == 0 {
+                                w.schedule(at, Ev::Deliver { to, src: rec.src, bytes: rec.bytes.clone(), origin: Origin::Genuine { wire: wi, from } });
                             }
                             held = true;
                         }
